@@ -279,6 +279,14 @@ func (h *handler1) handleClientPublish(ctx context.Context, snPublish *snPkts1.P
 func (h *handler1) handleBrokerPublish(ctx context.Context, mqPublish *mqPkts.PublishPacket) error {
 	msgID := mqPublish.MessageID
 
+	// MQTT-SN has no fragmentation: a message which does not fit into one
+	// MQTT-SN PUBLISH packet (4 B header + 5 B flags, TopicID and MsgID)
+	// cannot be delivered.
+	if len(mqPublish.Payload) > snPkts1.MaxPacketLen-9 {
+		h.log.Error("Dropping MQTT PUBLISH with too long payload (%d B)", len(mqPublish.Payload))
+		return nil
+	}
+
 	// Get TopicID
 	var needsRegister bool
 	var topicID uint16
